@@ -53,9 +53,11 @@ static void part_files(vf::Rng& r) {
     string what, got;
     size_t closes_after_save = 0;
     try {
+      vf::poison_errno();
       if (i % 2) phosg::save_file(path, d);
       else phosg::save_file(path, d.data(), d.size());
       closes_after_save = io::cm().closes.size();
+      vf::poison_errno();
       got = phosg::load_file(path);
     } catch (const std::exception& e) {
       threw = true;
@@ -169,7 +171,9 @@ static void part_listdir(vf::Rng& r) {
       FdGuard g;
       string kase = fmt("list_directory of a directory with %zu entries (files, dirs, dangling symlinks, fifos; odd, hidden and 255-byte names) seed %" PRIu64 " shard %u", cnt, C->seed, C->shard);
       try {
+        vf::poison_errno();
         std::unordered_set<string> got = phosg::list_directory(dir);
+        vf::poison_errno();
         std::vector<string> sorted = phosg::list_directory_sorted(dir);
         C->evaluations += 2;
         string missing, extra;
@@ -195,6 +199,7 @@ static void part_listdir(vf::Rng& r) {
     FdGuard g;
     bool threw = false;
     try {
+      vf::poison_errno();
       phosg::list_directory(g_dir + "/no-such-dir");
     } catch (const std::exception&) {
       threw = true;
@@ -297,6 +302,7 @@ static void part_unlink(vf::Rng& r) {
     bool threw = false;
     string what;
     try {
+      vf::poison_errno();
       phosg::unlink(root, true);
     } catch (const std::exception& e) {
       threw = true;
@@ -320,6 +326,7 @@ static void part_unlink(vf::Rng& r) {
     g.check("unlink_recursive", kase);
     // second call on the now-missing path: ENOENT is tolerated by the implementation; record only
     try {
+      vf::poison_errno();
       phosg::unlink(root, true);
       C->cls("unlink_recursive:missing-path:returns");
     } catch (const std::exception&) {
@@ -327,6 +334,7 @@ static void part_unlink(vf::Rng& r) {
     }
     // non-recursive unlink of a single file
     try {
+      vf::poison_errno();
       phosg::unlink(arena + "/tree.sibling");
       C->evaluations++;
       struct stat st;
@@ -347,6 +355,7 @@ static void part_unlink(vf::Rng& r) {
 // ---- dirname / basename ----------------------------------------------------------------------------------
 static void check_path(const string& p) {
   C->evaluations++;
+  vf::poison_errno();
   string d = phosg::dirname(p), b = phosg::basename(p);
   bool has = p.find('/') != string::npos;
   if (has) {
